@@ -383,6 +383,10 @@ public:
 				}
 				remove_leading_zeros();
 				r.setblock(0, static_cast<BlockType>(remainder));
+				r.remove_leading_zeros();
+				// truncating division: the quotient is negative iff the signs differ, the remainder follows the dividend
+				_sign = (a.sign() != b.sign()) && !iszero();
+				r._sign = a.sign() && !r.iszero();
 				return;
 			}
 
@@ -459,7 +463,10 @@ public:
 			r.setblock(n - 1, static_cast<BlockType>(normalized_a.block(n - 1) >> shift));
 		}
 		remove_leading_zeros();
-		_sign = a.sign() ^ b.sign();
+		r.remove_leading_zeros();
+		// truncating division: the quotient is negative iff the signs differ, the remainder follows the dividend
+		_sign = (a.sign() != b.sign()) && !iszero();
+		r._sign = a.sign() && !r.iszero();
 	}
 
 	// modifiers
